@@ -22,6 +22,8 @@ def history_check(prop, tier, seed, shapes, monitors, modules, profiles, p_inval
     suites.append(run_suite(prop, b, profiles, monitors, "boundary"))
     r = gen.vec_random(shapes, z["nrand"], z["nops"], seed, p_invalid=p_invalid)
     suites.append(run_suite(prop, r, profiles, monitors, "random"))
+    if prop == "C02":
+        suites.append(run_suite(prop, gen.slicemut_invalid(shapes, min(z["L"], 4), seed), profiles, monitors, "slicemut", compare_model=False))
     def widen():
         yield run_suite(prop, gen.vec_boundary(shapes, 6), ["debug", "release"], monitors, "widen-boundary")
         yield run_suite(prop, gen.vec_random(shapes, 3000, 60, seed + 1, p_invalid=0.3), ["debug", "release"], monitors, "widen-random")
@@ -101,4 +103,41 @@ def check_C17(tier, seed):
     return finish("C17", tier, seed, t0, "proof", proof, suites, [mon_c17], widen=widen)
 
 
-CHECKS = {"C17": check_C17, "C12": check_C12, "C09": check_C09, "C04": check_C04, "C01": check_C01, "C02": check_C02, "C03": check_C03, "C08": check_C08}
+def simple_check(prop, tier, seed, scenarios_fn, monitor, modules, profiles=("debug", "release"), model=False, widen_fn=None, extra_cov=None):
+    t0 = time.time()
+    for p in set(profiles) | {"debug"}: build_harness(p)
+    proof = prove(prop, modules)
+    suites = [run_suite(prop, scenarios_fn(tier), list(profiles), [monitor], "main", compare_model=model)]
+    def widen():
+        if widen_fn: yield run_suite(prop, widen_fn(), ["debug", "release"], [monitor], "widen", compare_model=False)
+    return finish(prop, tier, seed, t0, "proof", proof, suites, [monitor], widen=widen, extra_cov=extra_cov)
+
+MODEL = {"C05": False, "C06": False, "C07": False, "C10": False, "C15": False}
+
+def check_C05(tier, seed):
+    L, depth, per = (4, 3, 60) if tier == "quick" else (6, 3, 500)
+    return simple_check("C05", tier, seed, lambda t: gen.view_scenarios(gen.ALL_SHAPES, L, depth, seed, per), mon_c05, ["Soa.Props.C05"],
+                        model=MODEL["C05"], widen_fn=lambda: gen.view_scenarios(gen.ALL_SHAPES, 6, 3, seed + 1, 300))
+
+def check_C06(tier, seed):
+    L = 4 if tier == "quick" else 6
+    return simple_check("C06", tier, seed, lambda t: gen.iter_scenarios(gen.ALL_SHAPES, L), mon_c06, ["Soa.Props.C06"],
+                        model=MODEL["C06"], widen_fn=lambda: gen.iter_scenarios(gen.ALL_SHAPES, 6), extra_cov={"exhaustive": True})
+
+def check_C07(tier, seed):
+    L = 4 if tier == "quick" else 6
+    return simple_check("C07", tier, seed, lambda t: gen.sort_scenarios(gen.ALL_SHAPES, L, seed, 28 if tier == "quick" else 200), mon_c07, ["Soa.Props.C07"],
+                        model=MODEL["C07"], widen_fn=lambda: gen.sort_scenarios(gen.ALL_SHAPES, 6, seed + 1, 100))
+
+def check_C10(tier, seed):
+    L = 4 if tier == "quick" else 6
+    return simple_check("C10", tier, seed, lambda t: gen.ptr_scenarios(gen.ALL_SHAPES, L), mon_c10, ["Soa.Props.C10"],
+                        model=MODEL["C10"], widen_fn=lambda: gen.ptr_scenarios(gen.ALL_SHAPES, 6))
+
+def check_C15(tier, seed):
+    L = 4 if tier == "quick" else 6
+    return simple_check("C15", tier, seed, lambda t: gen.refs_scenarios(gen.ALL_SHAPES, L), mon_c15, ["Soa.Props.C15"],
+                        model=MODEL["C15"], widen_fn=lambda: gen.refs_scenarios(gen.ALL_SHAPES, 6))
+
+
+CHECKS = {"C05": check_C05, "C06": check_C06, "C07": check_C07, "C10": check_C10, "C15": check_C15, "C17": check_C17, "C12": check_C12, "C09": check_C09, "C04": check_C04, "C01": check_C01, "C02": check_C02, "C03": check_C03, "C08": check_C08}
